@@ -23,9 +23,10 @@ BOUNDS = (
     "(49 + 2; isscalar and n_apertures are catalog-level and compared with their definition).  "
     "Index forms for length n: every int in [-n, n-1], numpy ints, 8 slices (incl. steps 2, -1, -2), "
     "integer lists (single, reversed, duplicates, negative), the same as numpy arrays, boolean masks "
-    "as list and array (first, last, alternating, all, random; never empty), get_label/get_id for "
+    "as list and array [quick, n >= 4: every second list also as array / every second mask also as list] (first, last, alternating, all, random; never empty), get_label/get_id for "
     "every label, get_labels/get_ids with list / tuple / array / scalar arguments (permuted, "
-    "single).  Empty selections are excluded.  Histories: (after) nothing evaluated before indexing; "
+    "single), and chained indexing cat[i1][i2] (i1 a reversal / rotation / permutation / mask, i2 "
+    "get_label, get_labels, int, slice, list).  Empty selections are excluded.  Histories: (after) nothing evaluated before indexing; "
     "(before) every property evaluated on the parent first; (mixed) a random subset evaluated before "
     "in random order and all read after in random order [quick 1, thorough 4 subsets]; (recompute) "
     "every property cached before, then each property in turn dropped from the child's cache and "
@@ -59,15 +60,45 @@ def _isnan(x):
         return False
 
 
+_TYPES = {}
+
+
+def _types():
+    if not _TYPES:
+        from astropy.coordinates import SkyCoord
+        from astropy.units import Quantity
+
+        from photutils.aperture import Aperture, BoundingBox
+        _TYPES.update(SkyCoord=SkyCoord, Quantity=Quantity, Aperture=Aperture,
+                      BoundingBox=BoundingBox)
+    return _TYPES
+
+
+def _num_equal(aa, bb):
+    if aa.shape != bb.shape:
+        return False
+    ka, kb = aa.dtype.kind, bb.dtype.kind
+    if ka in 'US' or kb in 'US':
+        return bool(np.array_equal(aa, bb))
+    if ka == 'b' or kb == 'b':
+        return ka == kb and bool(np.array_equal(aa, bb))
+    if ka in 'iu' and kb in 'iu':
+        return bool((aa == bb).all())
+    try:
+        return bool(((aa == bb) | ((aa != aa) & (bb != bb))).all())
+    except TypeError:
+        return bool(np.array_equal(aa, bb))
+
+
 def same(a, b):
     """Exact, type-aware equality (see BOUNDS)."""
-    from astropy.coordinates import SkyCoord
-    from astropy.units import Quantity
-
-    from photutils.aperture import Aperture, BoundingBox
-
     if a is None or b is None:
         return a is None and b is None
+    if type(a) is np.ndarray and type(b) is np.ndarray and a.dtype != object and b.dtype != object:
+        return _num_equal(a, b)
+    t = _types()
+    SkyCoord, Quantity, Aperture, BoundingBox = (t['SkyCoord'], t['Quantity'], t['Aperture'],
+                                                 t['BoundingBox'])
     if isinstance(a, SkyCoord) or isinstance(b, SkyCoord):
         if not (isinstance(a, SkyCoord) and isinstance(b, SkyCoord)):
             return False
@@ -130,21 +161,12 @@ def same(a, b):
             except Exception:  # noqa: BLE001
                 return False
         return aa.shape == bb.shape and all(same(x, y) for x, y in zip(aa.ravel(), bb.ravel()))
-    if aa.shape != bb.shape:
-        return False
-    if aa.dtype.kind in 'US' or bb.dtype.kind in 'US':
-        return bool(np.array_equal(aa, bb))
-    if aa.dtype.kind == 'b' or bb.dtype.kind == 'b':
-        return aa.dtype.kind == bb.dtype.kind and bool(np.array_equal(aa, bb))
-    try:
-        return bool(np.array_equal(aa, bb, equal_nan=True))
-    except TypeError:
-        return bool(np.array_equal(aa, bb))
+    return _num_equal(aa, bb)
 
 
 def is_trivial(v):
     """True when the value carries no information (None / NaN everywhere)."""
-    from astropy.coordinates import SkyCoord
+    SkyCoord = _types()['SkyCoord']
     if v is None:
         return True
     if isinstance(v, SkyCoord):
@@ -310,7 +332,7 @@ def prop_names(cfg, cat):
 
 
 # --------------------------------------------------------------------------- index forms
-def index_forms(n, labels, rng):
+def index_forms(n, labels, rng, full=True):
     forms = []
     for i in range(-n, n):
         forms.append({'kind': 'int', 'v': i})
@@ -333,7 +355,8 @@ def index_forms(n, labels, rng):
             continue
         seen.add(tuple(lst))
         forms.append({'kind': 'list', 'v': lst})
-        forms.append({'kind': 'array', 'v': lst})
+        if full or len(seen) % 2 == 1:
+            forms.append({'kind': 'array', 'v': lst})
     bools = [[True] * n, [i == 0 for i in range(n)], [i == n - 1 for i in range(n)],
              [i % 2 == 0 for i in range(n)]]
     if n > 1:
@@ -347,8 +370,9 @@ def index_forms(n, labels, rng):
         if tuple(bl) in seen:
             continue
         seen.add(tuple(bl))
-        forms.append({'kind': 'boollist', 'v': [int(b) for b in bl]})
         forms.append({'kind': 'boolarray', 'v': [int(b) for b in bl]})
+        if full or len(seen) % 2 == 0:
+            forms.append({'kind': 'boollist', 'v': [int(b) for b in bl]})
     for lab in labels:
         forms.append({'kind': 'get_one', 'v': int(lab)})
         forms.append({'kind': 'get_many', 'v': [int(lab)], 'as': 'list'})
@@ -359,11 +383,32 @@ def index_forms(n, labels, rng):
         forms.append({'kind': 'get_many', 'v': perm, 'as': 'list'})
         forms.append({'kind': 'get_many', 'v': perm[::-1][:max(1, n - 1)], 'as': 'tuple'})
         forms.append({'kind': 'get_many', 'v': [int(labels[-1]), int(labels[0])], 'as': 'array'})
+        # chained indexing: a reordered / thinned child indexed again (rows no longer label-sorted)
+        firsts = [{'kind': 'list', 'v': list(range(n))[::-1]}, {'kind': 'slice', 'v': [None, None, -1]},
+                  {'kind': 'array', 'v': [int(v) for v in np.roll(np.arange(n), 1)]},
+                  {'kind': 'get_many', 'v': [int(labels[i]) for i in rng.permutation(n)], 'as': 'list'}]
+        if n > 2:
+            firsts.append({'kind': 'boolarray', 'v': [int(i != 1) for i in range(n)]})
+        for j, first in enumerate(firsts if full else firsts[:3]):
+            _, p1 = positions(first, n, labels)
+            sub = [int(labels[i]) for i in p1]
+            seconds = [{'kind': 'get_one', 'v': sub[0]}, {'kind': 'get_one', 'v': sub[-1]},
+                       {'kind': 'get_many', 'v': sorted(sub), 'as': 'list'},
+                       {'kind': 'get_many', 'v': sub[::-1], 'as': 'array'},
+                       {'kind': 'int', 'v': -1}, {'kind': 'slice', 'v': [1, None, None]},
+                       {'kind': 'list', 'v': [len(sub) - 1, 0]}]
+            for k, second in enumerate(seconds):
+                if full or (j + k) % 2 == 0:
+                    forms.append({'kind': 'chain', 'v': [first, second]})
     return forms
 
 
 def apply_index(cat, cfg, form):
     k, v = form['kind'], form['v']
+    if k == 'chain':
+        for sub in v:
+            cat = apply_index(cat, cfg, sub)
+        return cat
     if k == 'int':
         return cat[int(v)]
     if k == 'npint':
@@ -396,6 +441,16 @@ def positions(form, n, labels):
     """('scalar', i) or ('vector', [i, ...]): the rows an index form selects, by definition."""
     k, v = form['kind'], form['v']
     labels = [int(x) for x in labels]
+    if k == 'chain':
+        rows = list(range(n))
+        kind = 'vector'
+        for sub in v:
+            sub_labels = [labels[i] for i in rows]
+            kind, p = positions(sub, len(rows), sub_labels)
+            if kind == 'scalar':
+                return 'scalar', rows[p]
+            rows = [rows[i] for i in p]
+        return kind, rows
     if k in ('int', 'npint'):
         return 'scalar', int(v) % n
     if k == 'slice':
@@ -544,7 +599,7 @@ def check_commutation(ctx, cfg, rec, rng, nmixed):
             rec(fkey(cls, name, 'exception-on-parent'), f'{cls}.{name} raised {ref[name][1]} on the '
                 f'unsliced catalog {cfg}', {'kind': 'commute', 'cfg': cfg, 'forms': None, 'hist': None,
                                             'prop': name})
-    forms = index_forms(n, labels, rng)
+    forms = index_forms(n, labels, rng, full=ctx.thorough or n < 4)
     hists = [{'kind': 'after'}, {'kind': 'before'}, {'kind': 'recompute'}]
     for _ in range(nmixed):
         sub = [names[i] for i in rng.permutation(len(names))[:int(rng.integers(1, len(names)))]]
@@ -650,8 +705,9 @@ def _op_list():
 
 def snapshot(c):
     names = list(c.extra_properties)
-    vals = {nm: copy.deepcopy(getattr(c, nm)) for nm in names}
-    cols = list(c.default_columns) + names
+    vals = {nm: (copy.deepcopy(getattr(c, nm)) if hasattr(c, nm) else 'MISSING-ATTRIBUTE')
+            for nm in names}
+    cols = list(c.default_columns) + [nm for nm in names if hasattr(c, nm)]
     tbl = c.to_table(columns=cols)
     tcols = {}
     for col in tbl.colnames:
